@@ -391,7 +391,10 @@ def _work_random(args):
                     if restr and rng.random() < 0.3:
                         restr.append(restr[0])
                     ign = bool(rng.random() < 0.6)
-                    obs = route_observe(start, end, restr if restr else None, ign)
+                    given = restr if restr else None
+                    if given and tid % 3 == 0:
+                        given = [list(p_) for p_ in given]          # pairs written as lists instead of tuples
+                    obs = route_observe(start, end, given, ign)
                     ev = [{'op': 'Route', 'nS': nS, 'nE': nE, 'hS': sorted(hS), 'hE': sorted(hE),
                            'restr': [[i + 1, j + 1] for i, j in restr], 'ignoreH': ign, 'called': obs['called'],
                            'fixed': obs['fixed'], 'delivered': obs['delivered'], 'rows': obs['rows'],
